@@ -35,6 +35,20 @@ def gen(tier, seed):
         texts['ka%d' % q] = json.dumps(rec); meta['ka%d' % q] = 'mutant'
         texts['kb%d' % q] = json.dumps({'type': 'record', 'name': 'Outer', 'fields': [{'name': 'o', 'type': {'type': 'array', 'items': rec}}]})
         meta['kb%d' % q] = 'mutant'
+    # the name grammar [A-Za-z_][A-Za-z0-9_]* (dot-separated for full names): letters and digits outside ASCII, signs,
+    # empty segments - as type names, namespaces, aliases, references, field names and enum symbols
+    odd = ['Caf\u00e9', 'ns.R\u00e9sum\u00e9', 'a\u0661', 'x\u540d\u524d', '\u00e9a', 'a-b', 'a b', '9a', 'a.9b', 'a.', '.a.', 'a..b', 'a\u00b2', 'a\u00aa',
+           'ok_1', 'a.b_2.C3', '_', 'a\u200b', 'A\u0301']
+    q = 0
+    for nm_ in odd:
+        for js in ({'type': 'fixed', 'name': nm_, 'size': 1}, {'type': 'enum', 'name': nm_, 'symbols': ['A']},
+                   {'type': 'record', 'name': nm_, 'fields': []}, {'type': 'fixed', 'name': 'F', 'namespace': nm_, 'size': 1},
+                   {'type': 'fixed', 'name': 'F', 'aliases': [nm_], 'size': 1},
+                   {'type': 'record', 'name': 'R', 'fields': [{'name': 'f', 'type': {'type': 'fixed', 'name': 'G', 'size': 1}}, {'name': 'g', 'type': nm_}]},
+                   {'type': 'record', 'name': 'R', 'fields': [{'name': nm_, 'type': 'int'}]},
+                   {'type': 'record', 'name': 'R', 'fields': [{'name': 'f', 'type': 'int', 'aliases': [nm_]}]},
+                   {'type': 'enum', 'name': 'E', 'symbols': ['A', nm_]}):
+            texts['kn%d' % q] = json.dumps(js, ensure_ascii=False); meta['kn%d' % q] = 'mutant'; q += 1
     for i in range(n):
         r = rng.fork(i)
         js = schematext.gen_schema_json(r, max_depth=r.choice([1, 2, 2, 3]), weird=False)
@@ -92,6 +106,48 @@ def dup_fields(s, out):
             dup_fields(b, out)
     return out
 
+import re as _re
+_SEG = _re.compile(r'^[A-Za-z_][A-Za-z0-9_]*$')
+
+def bad_names(s, out):
+    """names of a schema term outside the grammar: type names and namespaces (dot-separated segments), field names, enum symbols"""
+    if isinstance(s, str):
+        return out
+    t = tag(s)
+    def full(n):
+        return ([unhx(n[1][1]).decode('utf-8', 'replace')] if tag(n[1]) == 'some' else []) + [unhx(n[2]).decode('utf-8', 'replace')]
+    def check_name(n):
+        for part in full(n):
+            for seg in part.split('.'):
+                if not _SEG.match(seg):
+                    out.append('.'.join(full(n)))
+                    return
+    if t in ('record', 'enum', 'fixed'):
+        check_name(s[1])
+    if t == 'ref':
+        check_name(s[1])
+    if t == 'record':
+        for f in s[4][1:]:
+            fn = unhx(f[1]).decode('utf-8', 'replace')
+            if not _SEG.match(fn):
+                out.append('field ' + fn)
+            bad_names(f[5], out)
+    elif t == 'enum':
+        for sym in s[4][1:]:
+            sn = unhx(sym).decode('utf-8', 'replace')
+            if not _SEG.match(sn):
+                out.append('symbol ' + sn)
+    elif t in ('array', 'map'):
+        bad_names(s[1], out)
+    elif t == 'union':
+        for b in s[1:]:
+            bad_names(b, out)
+    elif t == 'decimal':
+        bad_names(s[3], out)
+    elif t in ('uuid', 'duration'):
+        bad_names(s[1], out)
+    return out
+
 def strip_defaults(js):
     if isinstance(js, list):
         return [strip_defaults(x) for x in js]
@@ -141,6 +197,9 @@ def judge(run, texts, meta, parsed, rt, model):
                 for name, x in (('serialise', r[2]), ('canonical-form', r[4]), ('debug', r[5]), ('resolve-names', r[6])):
                     if not isinstance(x, str) and tag(x) == 'panic':
                         run.fail('operation-panic', '%s panicked on an accepted schema' % name, case)
+                bn = bad_names(res[1], [])
+                if bn:
+                    run.fail('malformed-name-accepted', 'name(s) %s of an accepted schema are outside [A-Za-z_][A-Za-z0-9_]*' % bn[:3], case)
                 df = dup_fields(res[1], [])
                 if df:
                     run.fail('duplicate-field-accepted', 'record(s) %s of an accepted schema have two fields of one name' % df[:3], case)
